@@ -60,7 +60,7 @@ SEPS = ["/", "//", "\\"]
 LEADS = ["", "/", "//", "\\", "\\/", "/\\"]
 TRAILS = ["", "/"]
 KINDS = ["include", "inherit", "namespace", "nsimport", "get_namespace", "get_template", "include_file"]
-SPELLS = ["plain", "trailing", "dot", "dotdot", "relative", "cwd", "dslash"]
+SPELLS = ["plain", "trailing", "dot", "dotdot", "relative", "cwd", "dslash", "rootcwd"]  # rootcwd: the process works in "/"
 NCSPELL = 5
 TPH = "{T}"  # placeholder for the absolute path of the scratch tree inside a URI
 
@@ -226,6 +226,10 @@ class Env:
             if self.spell in ("relative", "cwd"):
                 self.oldcwd = os.getcwd()
                 os.chdir(self.T if self.spell == "relative" else os.path.join(self.T, "root"))
+            elif self.spell == "rootcwd":
+                # a daemon / container: nothing about containment may depend on the working directory
+                self.oldcwd = os.getcwd()
+                os.chdir("/")
             self.roots = [os.path.join(self.T, "root")] + ([os.path.join(self.T, "root2")] if self.two else [])
             self.allow_w = (os.path.join(self.T, "mod"),) if self.moddir else ()
             self.allow_r = tuple(self.roots) + self.allow_w
@@ -277,7 +281,7 @@ class Env:
     def _spell_root(self, name):
         T = self.T
         s = self.spell
-        if s == "plain":
+        if s in ("plain", "rootcwd"):
             return T + "/" + name
         if s == "trailing":
             return T + "/" + name + "/"
@@ -966,6 +970,7 @@ QUICK_FAM_CFGS = [  # structured families in the quick tier: the remaining root 
     {"spell": "dotdot", "mod": True, "two": False},
     {"spell": "dslash", "mod": False, "two": True},
     {"spell": "dot", "mod": True, "two": True},
+    {"spell": "rootcwd", "mod": True, "two": False},
 ]
 DEFAULT_CFG = QUICK_CFGS[0]
 SECOND_CFG = {"spell": "trailing", "mod": False, "two": True}
